@@ -18,7 +18,9 @@ import (
 // request := cfg x path(cfg) x method x content-type x header-set x body x writer x delivery
 //
 // (writer: the ResponseWriter the server is handed, writer.go; delivery: how the
-// body bytes are announced and handed out by the transport, delivery.go)
+// body bytes are announced and handed out by the transport, delivery.go; the
+// body axis is the hand-written bodies below followed by a generated family over
+// the number a frame's size preface announces, preface.go)
 //
 // Every axis lists its "base" (plain valid) value first; the base content type
 // and body depend on the kind of the addressed method.
@@ -285,6 +287,9 @@ func init() {
 		{"frame-count2", framed(msgCount2)},
 		{"frame-err-after-1", framed(msgErrAfter1)},
 	}
+	// the generated family: what a frame's size preface announces (preface.go)
+	appendPrefaceBodies()
+	buildPrefaceIndex()
 }
 
 // Case is one fully literal request plus the names of the grammar values it was
